@@ -101,7 +101,9 @@ where
             }
 
             let mut interpolated_state = from.clone();
-            for i in 1..=num_steps {
+            // The intermediate states; the end state is checked as given, since interpolating to t = 1
+            // may differ from `to` in the last bit and `to` is the state that gets stored.
+            for i in 1..num_steps {
                 let t = i as f64 / num_steps as f64;
                 space.interpolate(from, to, t, &mut interpolated_state);
                 if !vc.is_valid(&interpolated_state) {
@@ -109,7 +111,7 @@ where
                 }
             }
 
-            true
+            vc.is_valid(to)
         } else {
             false
         }
